@@ -920,7 +920,7 @@ class PrepareMessage(_MessageType):
                     "".format(flags=flags, pv=protocol_version))
 
         if ProtocolVersion.uses_keyspace_flag(protocol_version):
-            if self.keyspace:
+            if self.keyspace is not None:
                 write_string(f, self.keyspace)
 
 
